@@ -300,6 +300,79 @@ func rC04OptionalMin(w *World, r *Report) {
 		ru.Undecided("anchor", "-", "option.New / IsOptional / MinArgs not found")
 		return
 	}
+	// the per-kind bounds set by option.New: one value per occurrence unless the definer says otherwise (MaxArgs = 1
+	// wherever New sets it), none mandatory exactly for the optional-value kinds (MinArgs = 0 next to IsOptional = true)
+	if fMax := w.Field("option", "Option", "MaxArgs"); fMax != nil {
+		eachInstr(fn, func(in ssa.Instruction) {
+			_, f, v, ok := storeField(in)
+			if !ok || f != fMax {
+				return
+			}
+			// table-driven form: the bounds are fields of one entry of a package-level table indexed by the kind
+			if tab, fmx, ok := tableField(w, v); ok {
+				var fmn, fop string
+				for _, i2 := range in.Block().Parent().Blocks {
+					for _, i3 := range i2.Instrs {
+						if _, f2, v2, ok := storeField(i3); ok {
+							if t2, fn2, ok := tableField(w, v2); ok && t2 == tab {
+								if f2 == fMin {
+									fmn = fn2
+								}
+								if f2 == fOpt {
+									fop = fn2
+								}
+							}
+						}
+					}
+				}
+				entries, why := globalMapLiteral(w, tab)
+				if why != "" || fmn == "" {
+					ru.Undecided("New/bounds/table", w.IPos(in), "per-kind table "+tab.Name()+" not understood: "+why)
+					return
+				}
+				bad := ""
+				for _, e := range entries {
+					emx, ok1 := constInt(e.fields[fmx])
+					emn, ok2 := constInt(e.fields[fmn])
+					eop := false
+					if fop != "" {
+						if c, ok := e.fields[fop].(*ssa.Const); ok && c.Value != nil && c.Value.String() == "true" {
+							eop = true
+						}
+					}
+					if e.fields[fmx] == nil {
+						emx, ok1 = 0, true
+					}
+					if e.fields[fmn] == nil {
+						emn, ok2 = 0, true
+					}
+					if !(ok1 && ok2 && ((emn == 1 && emx == 1 && !eop) || (emn == 0 && emx == 1 && eop) || (emn == 0 && emx == 0 && !eop))) {
+						bad = "an entry of " + tab.Name()
+					}
+				}
+				ru.Check(bad == "", "New/bounds", w.IPos(in), "per-kind bounds from the table: (1,1), (0,1) for the optional-value kinds, (0,0) for flags", "option.New gives a kind other default bounds than one value (mandatory or optional) or none ("+bad+")")
+				return
+			}
+			mx, isC := constInt(v)
+			mn, optional, haveMin := int64(-1), false, false
+			for _, i2 := range in.Block().Instrs {
+				if _, f2, v2, ok := storeField(i2); ok {
+					if f2 == fMin {
+						if k, ok := constInt(v2); ok {
+							mn, haveMin = k, true
+						}
+					}
+					if f2 == fOpt {
+						if c, ok := v2.(*ssa.Const); ok && c.Value != nil && c.Value.String() == "true" {
+							optional = true
+						}
+					}
+				}
+			}
+			good := isC && haveMin && ((mn == 1 && mx == 1 && !optional) || (mn == 0 && mx == 1 && optional) || (mn == 0 && mx == 0 && !optional))
+			ru.Check(good, "New/bounds", w.IPos(in), "per-kind bounds: (1,1), (0,1) for the optional-value kinds, (0,0) for flags", "option.New gives a kind other default bounds than one value (mandatory or optional) or none: an option of that kind takes - or refuses - a following argument that the other spellings of the same command line treat differently")
+		})
+	}
 	for _, u := range w.fieldUses(fOpt) {
 		if u.Kind == "read" {
 			continue
